@@ -92,7 +92,7 @@ fn parse_header(header: &str) -> Result<Header, ParseError> {
         .filter(|s| !s.is_empty())
         .ok_or(ParseError::MissingNewLine)?;
 
-    if newline != NEWLINE {
+    if newline != NEWLINE || !header.ends_with(PROTOCOL_SUFFIX) {
         return Err(ParseError::InvalidSuffix);
     }
 
